@@ -6,7 +6,12 @@ import functools
 import itertools
 import json
 import random
+import re
+import struct
 from unittest.mock import MagicMock
+
+from cryptography.exceptions import InvalidTag
+from cryptography.hazmat.primitives.ciphers.aead import ChaCha20Poly1305
 
 from harness import simnet
 from harness.acc import Accessory, http
@@ -27,15 +32,25 @@ RULE = ("histories on the simulated network (unpatched IpPairing against a scaff
         "OVERLAPPING-CALL histories (stream overlap): the accessory withholds its answers to PUT /characteristics while further subscribe / unsubscribe calls (disjoint and overlapping sets, two accessory ids, list/tuple/set arguments) are issued by other tasks "
         "- subscribe during unsubscribe, unsubscribe during subscribe, several of each, calls issued while disconnected and overtaken by the reconnect, calls issued during the re-subscription of a reconnect - answers released one at a time, all at once, or "
         "in the same read as EVENT messages, connection drops with calls in flight, events arriving while a request is unanswered, then disconnect/reconnect cycles (directed family over all pairs of calls x sets x release order + random histories to length 24). "
+        "THE WIRE (token `wire:`, streams wire-directed / wire-random / overlap-wire): the accessory writes its EVENT messages and its answers to PUT /characteristics Content-Length framed, `Transfer-Encoding: chunked` or alternately "
+        "(whole body in one chunk, one byte per chunk, N bytes, random sizes; lower/upper-case/zero-padded sizes; empty bodies), and its plaintext is cut into encrypted frames - the reads of the HTTP parser - in every way: one write per burst, "
+        "per message, per piece (head / size line / chunk data / CRLF / last-chunk line / final CRLF), two writes per message cut at each byte of the terminator (`0 CRLF CRLF`, or the blank line of the head), n cuts anywhere, one byte per frame; "
+        "the ciphertext again cut into reads (one, one per frame, random, one byte per read); bursts of 1..4 messages, multi-status answers and the re-subscription answers of a reconnect written the same way. "
+        "MANY SUBSCRIPTIONS (streams many-subscriptions / overlap-many-subscriptions): 40..120 characteristics of one accessory id plus some of others, subscribed a few at a time, all in one call, or while disconnected, with unsubscriptions of ranges, refused "
+        "characteristics (multi-status answers of several frames) and events for up to 30 characteristics in between, then 1..3 disconnect/reconnect cycles: the subscription / re-subscription requests span up to 4 encrypted frames; the scaffold accessory "
+        "authenticates every frame under its own per-frame counter and ends the session when one fails, as a conformant accessory does. "
         "non-trivial = distinct history")
-TRUSTED = ["harness/simnet.py virtual-time loop and in-memory transport", "harness/acc.py scaffold accessory: per-session record of ev registrations from PUT /characteristics", "orjson parses the event bodies", "aiohomekit.hkjson.loads, called by the harness on the body it sends, decides whether a lenient body is an event (the library's documented JSON dialect); what the event then means is the harness's own construction"]
+TRUSTED = ["harness/simnet.py virtual-time loop and in-memory transport", "harness/acc.py scaffold accessory: per-session record of ev registrations from PUT /characteristics",
+           "cryptography's ChaCha20Poly1305 in the scaffold accessory: whether a frame of the controller authenticates under the accessory's own per-frame counter", "orjson parses the event bodies", "aiohomekit.hkjson.loads, called by the harness on the body it sends, decides whether a lenient body is an event (the library's documented JSON dialect); what the event then means is the harness's own construction"]
 ASSUMPTIONS = ["one model event = one harness action followed by running the loop to quiescence",
                "a subscribe issued while disconnected is left to run out its 10 s pairing-level wait before the next action (so it cannot overlap a later reconnect)",
                "reconnection is refused by the simulated network until the explicit reconnect event; no request of the accessory is answered with a per-characteristic error status",
                "the order in which listeners are called within one delivery is not observed (set iteration order); each listener's own log is",
                "overlap stream: implementation-level oracles only (the Lean automaton has one atomic event per call); the caller-side reference under overlapping calls is linearizability per characteristic: a characteristic MUST be registered at a quiescent connected point "
                "iff every call touching it that can be last in some order consistent with issue/return times is a subscribe; an unsubscribe that raised still counts as a possible remover; the accessory answers in arrival order (the library sends one request at a time); "
-               "an answer withheld for 30 s of virtual time counts as a disconnection (the library's request timeout)"]
+               "an answer withheld for 30 s of virtual time counts as a disconnection (the library's request timeout)",
+               "a disconnection that exempts the fall-back to polling is one the NETWORK (the harness) performs; the accessory ending a session because a frame of the controller does not authenticate is not one (reported as request-not-authentic, "
+               "and the fall-back that follows as fallback-without-cut); chunked messages carry no chunk extensions and no trailers; the value of Transfer-Encoding is spelled `chunked`"]
 EXPLANATION = ("Lean theorems C12_* over the subscription/listener automaton HapVerif.Subs (wanted set changes only by subscribe/unsubscribe; after every connect the registered set covers the wanted set unless the polling fallback was entered, "
                "and every listener is told; each delivery calls every listener of the snapshot exactly once, bursts in order; raising/unregistering/registering listeners do not affect the others or the connection; junk bodies deliver nothing) "
                "+ differential tie on the accessory's per-session registrations and every listener's call log")
@@ -52,7 +67,33 @@ class CallableListener:
 
 
 def parse_chs(t):
-    return [] if t in ("-", "") else [tuple(int(x) for x in c.split(".")) for c in t.split(",")]
+    """'1.10,2.20' -> [(1, 10), (2, 20)]; a range of instance ids is written '1.100-139'"""
+    out = []
+    if t in ("-", ""):
+        return out
+    for c in t.split(","):
+        a, _, i = c.partition(".")
+        lo, _, hi = i.partition("-")
+        out.extend((int(a), x) for x in range(int(lo), int(hi or lo) + 1))
+    return out
+
+
+def brief_chs(cs):
+    """show_chs with runs of instance ids written as ranges (for messages about many characteristics)"""
+    out, run = [], None
+    for a, i in sorted(set(cs)) + [(None, None)]:
+        if run and run[0] == a and run[2] + 1 == i:
+            run[2] = i
+            continue
+        if run:
+            out.append(f"{run[0]}.{run[1]}" + (f"-{run[2]}" if run[2] > run[1] else ""))
+        run = [a, i, i]
+    return ",".join(out) if out else "-"
+
+
+def refuses(iid):
+    """instance ids 90..99 of the scaffold accessory do not support events"""
+    return 90 <= iid <= 99
 
 
 def show_chs(cs):
@@ -156,7 +197,7 @@ def model_body(b):
     """the body token as the Lean automaton knows it: an event with these keys, or a non-JSON body"""
     keys, dialect = split_body(b)
     if dialect is None:
-        return b
+        return ("c=" + ",".join(f"{a}.{i}" for a, i in keys)) if (keys and re.search(r"\d-\d", b)) else b
     return ("c=" + ",".join(f"{a}.{i}" for a, i in keys)) if event_keys(b) is not None else "notjson"
 
 
@@ -197,12 +238,205 @@ class Outcomes:
         return "refused"
 
 
+# ---------------------------------------------------------------------------------------------------------------
+# the wire: how the accessory writes what it sends (history token `wire:<spec>`, valid until the next one; `wire:off` = the plain writer:
+# Content-Length messages, one write per burst).  Applies to the EVENT messages and to the answers to PUT /characteristics alike.
+#
+#   cl | ch | mx   a message with a body is Content-Length framed / `Transfer-Encoding: chunked` / alternately one and the other
+#   k0 k1 kN kr    chunk sizes: the whole body in one chunk, one byte per chunk, N bytes per chunk, random sizes
+#   f1 fm fa ft<j> fr<n> fb
+#                  how the plaintext is cut into encrypted frames (= the reads of the HTTP parser): one write per burst (1024-byte blocks),
+#                  one write per message, one write per PIECE (head; every chunk-size line, chunk data, the CRLF behind it; the last-chunk
+#                  line `0 CRLF`; the final CRLF), every message in two writes cut j bytes into its terminator (chunked: `0 CRLF CRLF`,
+#                  otherwise the CRLF CRLF that ends the head), n cuts anywhere, every byte a frame of its own
+#   s0 sf sr s1    how the ciphertext is cut into reads of the transport: one read, one read per frame, 0..3 cuts anywhere, one byte per read
+#                  (bursts up to 3000 bytes of ciphertext; longer ones as sr)
+
+class Wire:
+    def __init__(self, spec):
+        self.spec = spec
+        self.enc, self.k, self.frame, self.tcp = "cl", "r", "f1", "r"
+        self.n = 0
+        for item in spec.split(","):
+            if item in ("cl", "ch", "mx"):
+                self.enc = item
+            elif item[:1] == "k":
+                self.k = item[1:]
+            elif item[:1] == "f":
+                self.frame = item
+            elif item[:1] == "s":
+                self.tcp = item[1:]
+            else:
+                raise ValueError(spec)
+
+    def chunked(self):
+        self.n += 1
+        return self.enc == "ch" or (self.enc == "mx" and self.n % 2 == 1)
+
+
+def parse_wire(spec):
+    return None if spec == "off" else Wire(spec)
+
+
+def message_atoms(body, wire, rnd, kind=b"HTTP/1.1", code=b"200 OK", ctype=b"application/hap+json"):
+    """one message as the list of pieces its writer emits"""
+    start = kind + b" " + code + b"\r\nContent-Type: " + ctype + b"\r\n"
+    if not wire.chunked():
+        return [start + b"Content-Length: %d\r\n\r\n" % len(body)] + ([body] if body else [])
+    atoms = [start + rnd.choice([b"Transfer-Encoding", b"Transfer-Encoding", b"transfer-encoding"]) + b": chunked\r\n\r\n"]
+    fmt = rnd.choice(["%x", "%x", "%X", "%04x"])
+    pos = 0
+    while pos < len(body):
+        if wire.k == "0":
+            n = len(body)
+        elif wire.k == "r":
+            n = rnd.choice([1, 2, 3, 7, 10, 16, 26, 100, 255, 256, 1024, 1025, 5000])
+        else:
+            n = int(wire.k)
+        n = max(1, min(n, len(body) - pos))
+        atoms += [(fmt % n).encode() + b"\r\n", body[pos:pos + n], b"\r\n"]
+        pos += n
+    return atoms + [b"0\r\n", b"\r\n"]
+
+
+def plain_frames(msgs, wire, rnd):
+    """the plaintext of a burst (messages as lists of pieces) -> the plaintext of each encrypted frame"""
+    f = wire.frame
+    whole = b"".join(a for m in msgs for a in m)
+    if f == "fm":
+        pieces = [b"".join(m) for m in msgs]
+    elif f == "fa":
+        pieces = [a for m in msgs for a in m]
+    elif f.startswith("ft"):
+        j, pieces = int(f[2:]), []
+        for m in msgs:
+            one = b"".join(m)
+            cut = (len(one) - 5 + j) if m[-2:] == [b"0\r\n", b"\r\n"] else (len(m[0]) - 4 + j)
+            pieces += [one[:cut], one[cut:]]
+    elif f.startswith("fr"):
+        cuts = sorted(rnd.sample(range(1, len(whole)), min(int(f[2:]), len(whole) - 1)))
+        pieces = [whole[a:b] for a, b in zip([0] + cuts, cuts + [len(whole)])]
+    elif f == "fb":
+        pieces = []
+        for m in msgs:
+            one = b"".join(m)
+            if len(one) <= 600:
+                pieces += [one[i:i + 1] for i in range(len(one))]
+            else:   # a long message: byte by byte through its first and last 200 bytes, random blocks between
+                pieces += [one[i:i + 1] for i in range(200)]
+                i = 200
+                while i < len(one) - 200:
+                    n = min(rnd.randrange(1, 700), len(one) - 200 - i)
+                    pieces.append(one[i:i + n])
+                    i += n
+                pieces += [one[i:i + 1] for i in range(len(one) - 200, len(one))]
+    else:
+        pieces = [whole]
+    return [p[i:i + 1024] for p in pieces for i in range(0, len(p), 1024)]
+
+
+def feed_wire(acc, t, msgs, wire, rnd):
+    """the accessory writes the messages the way `wire` says; -> number of frames"""
+    s = acc.sessions[t]
+    blobs = [acc.frame(s, p) for p in plain_frames(msgs, wire, rnd)]
+    data = b"".join(blobs)
+    if wire.tcp == "f":
+        cuts = list(itertools.accumulate(len(b) for b in blobs))[:-1]
+    elif wire.tcp == "0" or len(data) < 2:
+        cuts = []
+    elif wire.tcp == "1" and len(data) <= 3000:
+        cuts = list(range(1, len(data)))
+    else:
+        cuts = sorted(rnd.sample(range(1, len(data)), min(rnd.choice([0, 0, 1, 3]), len(data) - 1)))
+    prev = 0
+    for c in cuts + [len(data)]:
+        t.feed(data[prev:c])
+        prev = c
+    return len(blobs)
+
+
+def event_atoms(bodies, counter, wire, rnd):
+    """event_bytes for the `wire` writer: -> (messages as lists of pieces, [(sorted key set, value)] of those that are events)"""
+    msgs, want = [], []
+    for b in bodies:
+        counter[0] += 1
+        msgs.append(message_atoms(body_bytes(b, counter[0]), wire, rnd, kind=b"EVENT/1.0"))
+        keys = event_keys(b)
+        if keys is not None:
+            want.append((sorted(set(keys)), event_value(split_body(b)[1], counter[0])))
+    return msgs, want
+
+
+class StrictAccessory(Accessory):
+    """The scaffold accessory, behaving as a conformant one does when a frame does not authenticate under the counter it expects
+    (one counter step per FRAME, HAP 6.5.2): the session is over - it closes the connection and reads nothing more from it.
+    `unauth` records every such frame: (session index, expected counter, plaintext length announced by the frame)."""
+
+    def __init__(self, *a, **kw):
+        super().__init__(*a, **kw)
+        self.unauth = []
+        self.dead = set()
+        self.frames_in = {}          # session index -> frames read since the last complete request
+        self.max_request_frames = 0  # the largest number of frames one request of the controller came in
+
+    def on_write(self, t, data):
+        s = self.sessions[t]
+        if t in self.dead:
+            return
+        if not s.secure:
+            return super().on_write(t, data)
+        s.ebuf += data
+        while len(s.ebuf) >= 2:
+            n = struct.unpack("<H", s.ebuf[:2])[0]
+            if len(s.ebuf) < 2 + n + 16:
+                break
+            aad, blk = s.ebuf[:2], s.ebuf[2:2 + n + 16]
+            s.ebuf = s.ebuf[2 + n + 16:]
+            try:
+                s.buf += ChaCha20Poly1305(s.c2a).decrypt(struct.pack("<LQ", 0, s.rctr), blk, aad)
+            except InvalidTag:
+                self.unauth.append((s.idx, s.rctr, n))
+                self.dead.add(t)
+                self.loop.call_soon(t.peer_close)
+                return
+            s.rctr += 1
+            self.frames_in[s.idx] = self.frames_in.get(s.idx, 0) + 1
+        while True:
+            req = self._take_request(s)
+            if req is None:
+                break
+            self.max_request_frames = max(self.max_request_frames, self.frames_in.pop(s.idx, 0))
+            self.loop.call_soon(self._handle, t, *req)
+
+
+def unauth_problem(acc):
+    """oracle: the accessory could not read a request of the controller on a session whose keys both sides agreed on"""
+    out = []
+    for idx, ctr, n in acc.unauth:
+        out.append(("request-not-authentic", f"frame no. {ctr + 1} ({n} bytes) that the controller sent on connection no. {idx + 1} does not authenticate under counter {ctr} (one step per frame): the accessory "
+                                             f"could not read the request and had to end the session (the network did not cut anything)"))
+    del acc.unauth[:]
+    return out
+
+
 async def scenario(loop, events, seed):
     rnd = random.Random(seed)
     net = simnet.Net(loop)
-    acc = Accessory(loop, net, lambda n: bytes(rnd.randrange(256) for _ in range(n)))
+    acc = StrictAccessory(loop, net, lambda n: bytes(rnd.randrange(256) for _ in range(n)))
     cut = {"on": False}
     auto_put = acc._handle
+    style = {"w": None}   # how the accessory writes (token `wire:`); None = Content-Length messages, one write per burst
+    wstats = {"frames": 0, "chunked-replies": 0, "max-request-frames": 0}
+
+    def answer(s, code, body=b""):
+        """the answer to a PUT /characteristics, written the way the current `wire` says"""
+        w = style["w"]
+        if w is None:
+            return http(body, b"application/hap+json", code=code) if body else b"HTTP/1.1 " + code + b"\r\n\r\n"
+        atoms = message_atoms(body, w, rnd, code=code) if body else [b"HTTP/1.1 " + code + b"\r\n\r\n"]
+        wstats["chunked-replies"] += 1 if atoms[-2:] == [b"0\r\n", b"\r\n"] else 0
+        wstats["frames"] += feed_wire(acc, s.t, [atoms], w, rnd)
+        return None
 
     def responder(s, method, target, body):
         if target == "/characteristics" and method == "PUT":
@@ -215,14 +449,14 @@ async def scenario(loop, events, seed):
             for c in d["characteristics"]:
                 if "ev" in c:
                     s.sub_log.append((c["aid"], c["iid"], bool(c["ev"])))
-                    # `subs` = what this session was asked to notify (the model's view); instance ids from 90 up do not
+                    # `subs` = what this session was asked to notify (the model's view); instance ids 90..99 do not
                     # support events on this accessory: it says so in a multi-status reply that lists EVERY characteristic
                     (s.subs.add if c["ev"] else s.subs.discard)((c["aid"], c["iid"]))
-                    refused = refused or (c["ev"] and c["iid"] >= 90)
+                    refused = refused or (c["ev"] and refuses(c["iid"]))
             if refused:
-                rows = [{"aid": c["aid"], "iid": c["iid"], "status": (-70406 if c["iid"] >= 90 else 0)} for c in d["characteristics"]]
-                return http(json.dumps({"characteristics": rows}).encode(), b"application/hap+json", code=b"207 Multi-Status")
-            return b"HTTP/1.1 204 No Content\r\n\r\n"
+                rows = [{"aid": c["aid"], "iid": c["iid"], "status": (-70406 if refuses(c["iid"]) else 0)} for c in d["characteristics"]]
+                return answer(s, b"207 Multi-Status", json.dumps({"characteristics": rows}).encode())
+            return answer(s, b"204 No Content")
         return http(b"{}", b"application/hap+json")
     acc.responder = responder
     ctrl = MagicMock()
@@ -283,6 +517,10 @@ async def scenario(loop, events, seed):
         for ev in events:
             f = ev.split(":", 1)
             k = f[0]
+            if k == "wire":
+                # not an event of the history: from now on the accessory writes this way
+                style["w"] = parse_wire(f[1])
+                continue
             if k in ("sub", "cutsub"):
                 wanted_ref |= set(parse_chs(f[1]))
             elif k == "unsub":
@@ -316,6 +554,11 @@ async def scenario(loop, events, seed):
                 lid = int(f[1])
                 if lid in removers:
                     removers[lid]()
+            elif k == "ev" and style["w"] is not None:
+                if p.is_connected and net.open:
+                    t = net.open[-1]
+                    msgs, sent = event_atoms(f[1].split("|"), evno, style["w"], rnd)
+                    wstats["frames"] += feed_wire(acc, t, msgs, style["w"], rnd)
             elif k == "ev":
                 if p.is_connected and net.open:
                     t = net.open[-1]
@@ -329,6 +572,7 @@ async def scenario(loop, events, seed):
             else:
                 raise ValueError(ev)
             await settle(loop)
+            problems.extend(unauth_problem(acc))
             cur = net.open[-1] if net.open else None
             reg = sorted(acc.sessions[cur].subs) if (cur is not None and p.is_connected) else []
             ses = sum(1 for s in acc.order if s.secure)
@@ -345,6 +589,14 @@ async def scenario(loop, events, seed):
                 for lid in before_active:
                     if logs[lid][before_len[lid]:] != [[]]:
                         problems.append(("not-told-connection-back", f"listener {lid} got {logs[lid][before_len[lid]:]} instead of one empty 'connection is back' event"))
+            if k == "conn" and not was_connected and not p.is_connected and was_supported:
+                # a session came up (both sides hold its keys) and is gone again although the network cut nothing during this step: on it, too,
+                # the accessory must have been asked for everything
+                for s_new in [x for x in acc.order[n_sessions_before:] if x.secure][:1]:
+                    asked = {(a, i) for a, i, e in s_new.sub_log if e}
+                    if not wanted_ref <= asked:
+                        problems.append(("not-resubscribed", f"the (re)connection succeeded (secure session no. {sum(1 for x in acc.order if x.secure)}) but on it the accessory was asked for events of "
+                                                             f"{brief_chs(asked)} only; the caller's subscriptions {brief_chs(wanted_ref - asked)} were never requested again, and the session did not last (the network cut nothing)"))
             if k == "ev" and was_connected:
                 want = [ks for ks, _ in sent]
                 for lid in before_active:
@@ -368,7 +620,8 @@ async def scenario(loop, events, seed):
                 del net.errors[:]
         await p.shutdown()
         await settle(loop)
-    return lines, problems
+    wstats["max-request-frames"] = acc.max_request_frames
+    return lines, problems, wstats
 
 
 # ---------------------------------------------------------------------------------------------------------------
@@ -401,9 +654,17 @@ def must_be_subscribed(ops):
 async def overlap_scenario(loop, steps, seed):
     rnd = random.Random(seed)
     net = simnet.Net(loop)
-    acc = Accessory(loop, net, lambda n: bytes(rnd.randrange(256) for _ in range(n)))
-    st = {"hold": False}
-    held = []   # withheld answers: [session, reply bytes, the request asked for events, virtual time of arrival]
+    acc = StrictAccessory(loop, net, lambda n: bytes(rnd.randrange(256) for _ in range(n)))
+    st = {"hold": False, "wire": None}
+    held = []   # withheld answers: [session, reply (code, body), the request asked for events, virtual time of arrival]
+
+    def reply_bytes(r):
+        code, body = r
+        return http(body, b"application/hap+json", code=code) if body else b"HTTP/1.1 " + code + b"\r\n\r\n"
+
+    def reply_atoms(r):
+        code, body = r
+        return message_atoms(body, st["wire"], rnd, code=code) if body else [b"HTTP/1.1 " + code + b"\r\n\r\n"]
 
     def responder(s, method, target, body):
         if target == "/characteristics" and method == "PUT":
@@ -414,16 +675,19 @@ async def overlap_scenario(loop, steps, seed):
                     s.sub_log.append((c["aid"], c["iid"], bool(c["ev"])))
                     (s.subs.add if c["ev"] else s.subs.discard)((c["aid"], c["iid"]))
                     asks = asks or bool(c["ev"])
-                    refused = refused or (c["ev"] and c["iid"] >= 90)
+                    refused = refused or (c["ev"] and refuses(c["iid"]))
             if refused:
-                rows = [{"aid": c["aid"], "iid": c["iid"], "status": (-70406 if c["iid"] >= 90 else 0)} for c in d["characteristics"]]
-                reply = http(json.dumps({"characteristics": rows}).encode(), b"application/hap+json", code=b"207 Multi-Status")
+                rows = [{"aid": c["aid"], "iid": c["iid"], "status": (-70406 if refuses(c["iid"]) else 0)} for c in d["characteristics"]]
+                reply = (b"207 Multi-Status", json.dumps({"characteristics": rows}).encode())
             else:
-                reply = b"HTTP/1.1 204 No Content\r\n\r\n"
+                reply = (b"204 No Content", b"")
             if st["hold"]:
                 held.append([s, reply, asks, loop.time()])
                 return None
-            return reply
+            if st["wire"] is not None:
+                feed_wire(acc, s.t, [reply_atoms(reply)], st["wire"], rnd)
+                return None
+            return reply_bytes(reply)
         return http(b"{}", b"application/hap+json")
     acc.responder = responder
     ctrl = MagicMock()
@@ -489,14 +753,20 @@ async def overlap_scenario(loop, steps, seed):
 
         def release(extra=b"", first=True):
             """send the oldest withheld answer (with `extra` EVENT bytes in the same read, before or after it)"""
-            reply = b""
-            while held and not reply:
+            reply = None
+            while held and reply is None:
                 s, r, _, _ = held.pop(0)
                 if s.t is current():
                     reply = r
             t = current()
-            if t is None or not (reply or extra):
+            if t is None or not (reply is not None or extra):
                 return
+            if st["wire"] is not None:
+                # `extra` is a list of messages (lists of pieces) here
+                mine = [reply_atoms(reply)] if reply is not None else []
+                feed_wire(acc, t, (mine + list(extra)) if first else (list(extra) + mine), st["wire"], rnd)
+                return
+            reply = reply_bytes(reply) if reply is not None else b""
             data = acc.frame(acc.sessions[t], (reply + extra) if first else (extra + reply))
             if extra:
                 cuts = sorted(rnd.sample(range(1, len(data)), min(rnd.choice([0, 0, 1, 3]), len(data) - 1)))
@@ -515,6 +785,10 @@ async def overlap_scenario(loop, steps, seed):
             before_len = {lid: len(logs[lid]) for lid in logs}
             sent = []
             fed = False
+            if k == "wire":
+                # not a step of the history: from now on the accessory writes this way
+                st["wire"] = parse_wire(f[1])
+                continue
             if k in ("sub", "unsub"):
                 issue(k, parse_chs(f[1]))
             elif k == "hold":
@@ -523,7 +797,10 @@ async def overlap_scenario(loop, steps, seed):
                 release()
             elif k == "relev":
                 if current() is not None and p.is_connected:
-                    data, sent = event_bytes(f[1].split("|"), evno)
+                    if st["wire"] is not None:
+                        data, sent = event_atoms(f[1].split("|"), evno, st["wire"], rnd)
+                    else:
+                        data, sent = event_bytes(f[1].split("|"), evno)
                     fed = True
                     release(data, first=rnd.random() < 0.5)
             elif k in ("free", "#end"):
@@ -535,7 +812,10 @@ async def overlap_scenario(loop, steps, seed):
                     await settle(loop)
             elif k == "ev":
                 if current() is not None and p.is_connected:
-                    data, sent = event_bytes(f[1].split("|"), evno)
+                    if st["wire"] is not None:
+                        data, sent = event_atoms(f[1].split("|"), evno, st["wire"], rnd)
+                    else:
+                        data, sent = event_bytes(f[1].split("|"), evno)
                     fed = True
                     release_held = held[:]
                     del held[:]          # nothing is released: the burst alone
@@ -559,6 +839,7 @@ async def overlap_scenario(loop, steps, seed):
             else:
                 raise ValueError(step)
             await settle(loop)
+            problems.extend(unauth_problem(acc))
             if k == "#end":
                 # every call has had its answer (or lost its connection); one issued while disconnected gives up after 10 s
                 await asyncio.sleep(10.5)
@@ -696,6 +977,55 @@ def gen_overlap_random(rng):
     return steps + ["free", "conn", "drop", "conn"]
 
 
+def gen_overlap_wire(rng):
+    """a random overlapping-call history in which the accessory writes its answers and events chunked / in frames cut anywhere"""
+    steps = gen_overlap_random(rng)
+    for _ in range(rng.randrange(1, 3)):
+        steps.insert(rng.randrange(0, max(1, len(steps) // 2)), "wire:" + random_wire(rng))
+    return steps
+
+
+def gen_overlap_many(rng):
+    """overlapping calls with many characteristics: 40..120 of one accessory id accumulated a few at a time with answers withheld and released, calls during the
+    (multi-frame) re-subscription of a reconnect, unsubscriptions of ranges, events for many of them"""
+    aid = rng.choice([1, 1, 2])
+    steps = ["conn"] + (["wire:" + random_wire(rng)] if rng.random() < 0.3 else [])
+    iid, top = 100, 100 + rng.randrange(40, 121)
+
+    def burst():
+        a = rng.randrange(100, max(iid, 101))
+        b = min(a + rng.choice([0, 1, 5, 30]), max(iid, 101) - 1)
+        return f"c={aid}.{a}-{b}" if b > a else f"c={aid}.{a}"
+    while iid < top:
+        n = min(rng.randrange(3, 18), top - iid)
+        steps.append(f"sub:{aid}.{iid}-{iid + n - 1}")
+        iid += n
+        r = rng.random()
+        if r < 0.2:
+            steps.append("hold")
+        elif r < 0.4:
+            steps.append("rel")
+        elif r < 0.5:
+            steps.append("free")
+        elif r < 0.6:
+            a = rng.randrange(100, iid)
+            steps.append(f"unsub:{aid}.{a}-{min(a + rng.randrange(0, 6), iid - 1)}")
+        elif r < 0.7:
+            steps.append(rng.choice(["ev:", "relev:"]) + burst() + "|" + burst())
+    steps.append("free")
+    for _ in range(rng.randrange(1, 3)):
+        steps += ["drop"] + (["hold"] if rng.random() < 0.4 else []) + ["conn"]
+        if rng.random() < 0.5:
+            steps.append(f"sub:{aid}.{top}-{top + 5}")
+            top += 6
+            iid = top
+        if rng.random() < 0.3:
+            a = rng.randrange(100, iid)
+            steps.append(f"unsub:{aid}.{a}-{min(a + 3, iid - 1)}")
+        steps += ["free", "ev:" + burst() + "|" + burst()]
+    return steps
+
+
 def run_overlap(ctx: Ctx, cases, driver=None):
     loop = simnet.VLoop()
     asyncio.set_event_loop(loop)
@@ -779,6 +1109,8 @@ def overlap_cases(ctx, mult=1):
     rng = ctx.rng
     cases = [(h, "overlap-directed") for h in gen_overlap_directed(rng, ctx.budget(300, 588) * mult)]
     cases += [(gen_overlap_random(rng), "overlap-random") for _ in range(ctx.budget(400, 6000) * mult)]
+    cases += [(gen_overlap_wire(rng), "overlap-wire") for _ in range(ctx.budget(100, 2000) * mult)]
+    cases += [(gen_overlap_many(rng), "overlap-many-subscriptions") for _ in range(ctx.budget(40, 600) * mult)]
     return cases
 
 
@@ -794,11 +1126,16 @@ def short(x, n=300):
 def model_event(e):
     if e.startswith("ev:"):
         return "ev:" + "|".join(model_body(b) for b in e[3:].split("|"))
+    if re.search(r"\d-\d", e) and e.split(":")[0] in ("sub", "unsub", "cutsub"):
+        # the model reads explicit lists: '1.100-102' -> '1.100,1.101,1.102'
+        k, cs = e.split(":", 1)
+        return k + ":" + ",".join(f"{a}.{i}" for a, i in parse_chs(cs))
     return e
 
 
 def model_line(events):
-    return "sb.run " + " ".join(model_event(e).replace(":n", ":n").replace(" ", "") for e in events)
+    # `wire:` tokens say how the accessory writes its bytes; the model's events are the messages, however they are written
+    return "sb.run " + " ".join(model_event(e).replace(":n", ":n").replace(" ", "") for e in events if not e.startswith("wire:"))
 
 
 ALPHA = ["sub:1.10,2.20,1.11", "sub:2.21", "sub:1.12,1.90", "unsub:1.10", "unsub:2.20,2.21", "cutsub:1.12", "drop", "conn", "ladd:1:n", "ladd:2:x", "ladd:3:rm", "ladd:4:add~5", "lrem:1",
@@ -859,6 +1196,123 @@ def gen_random(rng):
     return evs
 
 
+# ---- how the accessory writes: chunked messages, frames cut anywhere (token `wire:`)
+
+WIRE_FRAMES = ["f1", "fm", "fa", "ft1", "ft2", "ft3", "ft4", "fr2", "fr6", "fb"]
+WIRE_BURSTS = ["c=1.10|c=1.11,2.20|c=1.10", "c=1.10", "c=1.10@big|c=2.20", "empty|c=1.10@tc|notjson|c=1.11", "c=1.10@uni|c=1.11@mix|c=2.20", "c=1.10,1.11,2.20@ws|c=1.10",
+               "c=1.10|c=1.10|c=1.10", "notutf8|c=2.20@bigtc|c=1.11@blk|c=1.10"]
+
+
+def random_wire(rng):
+    return ",".join([rng.choice(["ch", "ch", "mx", "cl"]), "k" + rng.choice(["0", "1", "2", "5", "17", "r", "r"]), rng.choice(WIRE_FRAMES), "s" + rng.choice(["0", "f", "f", "r", "r", "1"])])
+
+
+def gen_wire_directed(rng, n):
+    """every way of cutting the plaintext into frames x (chunked with the whole body in one chunk / one byte per chunk / random chunk sizes, chunked and
+    Content-Length alternating, Content-Length only) on three shapes of history: bursts on a healthy connection, answers to subscription requests and the
+    re-subscription of a reconnect written that way, listeners that change the listener set while the burst is delivered"""
+    core = []
+    for enc, ks in (("ch", ("k0", "k1", "kr")), ("mx", ("kr",)), ("cl", ("k0",))):
+        for k in ks:
+            for fr in WIRE_FRAMES:
+                core.append(f"{enc},{k},{fr}")
+    specs = [c + ",s" + "0fr1"[i % 4] for i, c in enumerate(core)] + [random_wire(rng) for _ in range(max(0, n - len(core)))]
+    hists = []
+    for i, spec in enumerate(specs):
+        burst = WIRE_BURSTS[(i // 3) % len(WIRE_BURSTS)] if i < len(core) else rng.choice(WIRE_BURSTS)
+        shape = i % 3 if i < len(core) else rng.randrange(3)
+        if shape == 0:
+            h = ["conn", "ladd:1:n", "ladd:2:x", "sub:1.10,1.11,2.20", f"wire:{spec}", f"ev:{burst}", "ev:c=1.10|c=1.11", "sub:1.12,1.90", f"ev:{burst}"]
+        elif shape == 1:
+            h = ["ladd:1:n", f"wire:{spec}", "conn", "sub:1.10,1.90,2.20", "sub:2.21,2.91", f"ev:{burst}", "drop", "conn", f"ev:{burst}", "unsub:1.10,1.90", "ev:c=2.20"]
+        else:
+            h = ["conn", "ladd:3:rm", "ladd:1:n", "ladd:4:add~5", f"wire:{spec}", f"ev:{burst}", "cutsub:1.12", "conn", f"ev:{burst}", "wire:off", "ev:c=1.10"]
+        hists.append(h)
+    return hists
+
+
+def gen_random_wire(rng):
+    """a random history in which the accessory changes its way of writing one to three times"""
+    evs = gen_random(rng)
+    for _ in range(rng.randrange(1, 4)):
+        evs.insert(rng.randrange(0, max(1, len(evs) // 2)), "wire:" + (random_wire(rng) if rng.random() < 0.9 else "off"))
+    return evs
+
+
+# ---- many subscriptions: the request that asks for all of them again does not fit one encrypted frame
+
+FIXED_MANY = [
+    # 40 characteristics of one accessory id, five at a time; the connection drops twice
+    ["conn", "ladd:1:n"] + [f"sub:1.{100 + 5 * i}-{104 + 5 * i}" for i in range(8)] + ["ev:c=1.100|c=1.139", "drop", "conn", "ev:c=1.100-139", "drop", "conn", "ev:c=1.101"],
+    # one call for 60 + 11 on two accessory ids, one unsubscription of 50, a reconnect
+    ["conn", "ladd:1:n", "ladd:2:x", "sub:1.100-159,2.100-110", "ev:c=1.159", "unsub:1.100-149", "drop", "conn", "ev:c=1.150|c=2.100"],
+    # subscribed while disconnected
+    ["ladd:1:n", "sub:2.100-119", "sub:2.120-145", "conn", "ev:c=2.100-130", "drop", "conn", "ev:c=2.145"],
+    # 120 characteristics and one the accessory refuses: every answer is a multi-status document of several frames, written chunked piece by piece
+    ["conn", "ladd:1:n", "wire:ch,kr,fa,sf", "sub:3.90", "sub:3.100-159", "sub:3.160-219", "ev:c=3.100-130|c=3.219", "drop", "conn", "ev:c=3.219|c=3.100"],
+]
+
+
+def gen_many(rng, i):
+    """40..120 characteristics of one accessory id (plus some of others), subscribed a few at a time (or all in one call, or while disconnected), with
+    unsubscriptions and events in between, then disconnect / reconnect cycles with events for many of them after each"""
+    aid = rng.choice([1, 1, 1, 2, 3])
+    other = rng.choice([a for a in (1, 2, 3) if a != aid])
+    total = rng.randrange(40, 121)
+    shape = i % 4
+    evs = [] if shape == 1 else ["conn"]
+    evs.append("ladd:1:n")
+    if rng.random() < 0.5:
+        evs.append("ladd:2:x")
+    if rng.random() < 0.3:
+        evs.append("wire:" + random_wire(rng))
+    iid, top = 100, 100 + total
+
+    def burst():
+        bodies = []
+        for _ in range(rng.randrange(1, 4)):
+            a = rng.randrange(100, max(iid, 101))
+            b = min(a + rng.choice([0, 0, 1, 5, 30]), max(iid, 101) - 1)
+            bodies.append(f"c={aid}.{a}-{b}" if b > a else f"c={aid}.{a}")
+        return "ev:" + "|".join(bodies)
+    if shape == 3:
+        evs.append(f"sub:{aid}.100-{top - 1},{other}.100-{100 + rng.randrange(1, 40)}")   # one call for all of them
+        iid = top
+    while iid < top:
+        n = min(rng.randrange(2, 13), top - iid)
+        evs.append(f"sub:{aid}.{iid}-{iid + n - 1}" if n > 1 else f"sub:{aid}.{iid}")
+        iid += n
+        r = rng.random()
+        if r < 0.12:
+            evs.append(f"sub:{other}.{rng.choice([10, 11, 20])},{aid}.{rng.randrange(100, iid)}")
+        elif r < 0.20:
+            evs.append(f"sub:{other}.100-{100 + rng.randrange(1, 50)}")
+        elif r < 0.30 and shape != 1:
+            evs.append(burst())
+        elif r < 0.36:
+            a = rng.randrange(100, iid)
+            evs.append(f"unsub:{aid}.{a}-{min(a + rng.randrange(0, 4), iid - 1)}")
+        elif r < 0.40:
+            evs.append(f"sub:{aid}.{rng.choice([90, 91])}")   # one that the accessory refuses: multi-status answers from now on
+        elif r < 0.45 and shape == 2:
+            evs += ["drop", "conn"]
+    if shape == 1:
+        evs.append("conn")
+    evs.append(burst())
+    for _ in range(rng.randrange(1, 4)):
+        evs += ["drop", "conn", burst()]
+        if rng.random() < 0.3:
+            evs.append(f"sub:{aid}.{top}-{top + rng.randrange(0, 8)}")
+            top += 9
+            iid = top
+        if rng.random() < 0.3:
+            evs.append(burst())
+        if rng.random() < 0.2:
+            a = rng.randrange(100, max(101, top - 40))
+            evs.append(f"unsub:{aid}.{a}-{min(a + rng.randrange(30, 80), top - 1)}")   # an unsubscription that does not fit one frame either
+    return evs
+
+
 def run_cases(ctx: Ctx, driver: Driver, cases):
     loop = simnet.VLoop()
     asyncio.set_event_loop(loop)
@@ -867,7 +1321,10 @@ def run_cases(ctx: Ctx, driver: Driver, cases):
     try:
         for i, (events, kind, *rest) in enumerate(cases):
             sseed = rest[0] if rest else ctx.seed * 104729 + i
-            out, problems = loop.run_until_complete(scenario(loop, events, sseed))
+            try:
+                out, problems, wstats = loop.run_until_complete(scenario(loop, events, sseed))
+            except Exception as e:  # noqa: BLE001 - misbehaving library code must not stop the harness
+                out, problems, wstats = [], [("harness-tripped", f"the scenario stopped with {type(e).__name__}: {e}")], {}
             pend = [t for t in asyncio.all_tasks(loop) if not t.done()]
             for t in pend:
                 t.cancel()
@@ -876,8 +1333,16 @@ def run_cases(ctx: Ctx, driver: Driver, cases):
             ctx.evaluations += 1
             ctx.nontrivial.add(tuple(events))
             ctx.dist["kind:" + kind] += 1
+            ctx.dist["wire-frames-written"] += wstats.get("frames", 0)
+            ctx.dist["wire-chunked-replies"] += wstats.get("chunked-replies", 0)
+            ctx.dist["max-frames-of-one-request"] = max(ctx.dist["max-frames-of-one-request"], wstats.get("max-request-frames", 0))
+            if wstats.get("max-request-frames", 0) > 1:
+                ctx.dist["histories-with-a-multi-frame-request"] += 1
             for e in events:
                 ctx.dist["ev:" + e.split(":")[0]] += 1
+                if e.startswith("wire:"):
+                    for item in e[5:].split(","):
+                        ctx.dist["wire:" + item] += 1
                 if e.startswith("ev:"):
                     for b in e[3:].split("|"):
                         ctx.dist["body:" + b.split("=")[0]] += 1
@@ -891,7 +1356,7 @@ def run_cases(ctx: Ctx, driver: Driver, cases):
                     vcase = dict(case)
                     if sig not in minimized and len(minimized) < 4:
                         def still(evs, sig=sig):
-                            _, pr = loop.run_until_complete(scenario(loop, evs, vcase["seed"]))
+                            _, pr, _ = loop.run_until_complete(scenario(loop, evs, vcase["seed"]))
                             pend2 = [t for t in asyncio.all_tasks(loop) if not t.done()]
                             for t in pend2:
                                 t.cancel()
@@ -924,6 +1389,16 @@ def cases_for(ctx):
         cases.append((evs, "exhaustive-sampled"))
     for _ in range(ctx.budget(500, 10000)):
         cases.append((gen_random(rng), "random"))
+    cases += more_cases(ctx)
+    return cases
+
+
+def more_cases(ctx, mult=1):
+    rng = ctx.rng
+    cases = [(evs, "wire-directed") for evs in gen_wire_directed(rng, ctx.budget(90, 600) * mult)]
+    cases += [(gen_random_wire(rng), "wire-random") for _ in range(ctx.budget(150, 4000) * mult)]
+    cases += [(list(evs), "many-subscriptions") for evs in FIXED_MANY]
+    cases += [(gen_many(rng, i), "many-subscriptions") for i in range(ctx.budget(60, 1200) * mult)]
     return cases
 
 
@@ -944,5 +1419,7 @@ def replay(ctx: Ctx, driver: Driver, case):
 def search(ctx: Ctx, driver: Driver, broken):
     rng = ctx.rng
     run_cases(ctx, driver, [(gen_random(rng), "search") for _ in range(ctx.budget(3000, 30000))])
+    if not ctx.violations:
+        run_cases(ctx, driver, more_cases(ctx, 4))
     if not ctx.violations:
         run_overlap(ctx, overlap_cases(ctx, 4))
